@@ -349,6 +349,78 @@ theorem scan_moveaxis_slice_stack {α : Type} [Inhabited α] (k : Int) :
       Flax.LiftLoop.opt (Flax.LiftLoop.stackFront k sh ls) = Flax.LiftLoop.opt (stackAt k sh ls)) :=
   ⟨fun a F i h => Flax.LiftLoop.take_front_eq a F k h i, fun sh ls => Flax.LiftLoop.stackFront_opt k sh ls⟩
 
+/-- **`moveaxis_inv`.**  The two `moveaxis` calls of `nnx.scan` are mutually inverse, for every rank and every axis in
+`[-rank, rank)` — in particular axes `≥ 2` on rank `≥ 3` and negative axes, where `moveaxis(x, 0, k)` and
+`moveaxis(x, k, 0)` differ.  Stated on what scan does with them: stack per-iteration values `ls` along 0 and
+`moveaxis(·, 0, k)` (the way out: `stackFront`), then `moveaxis(·, k, 0)` (the way in: `toFront`) and take the leading
+slice `i` — the result is `ls[i]` again; and the same array is `jnp.stack(ls, axis=k)`, whose slice `i` along `k` is
+`ls[i]`.  (Axis arithmetic of the two permutations: C06 `transpose_front_inverse`.) -/
+theorem moveaxis_inv {α : Type} [Inhabited α] [DecidableEq α] (k : Int) (sh : List Nat) (ls : List (Arr α))
+    (S F : Arr α) (hout : Flax.LiftLoop.stackFront k sh ls = .ok S) (hin : Arr.toFront k S = .ok F)
+    (hwf : ∀ y ∈ ls, Arr.WF y = true) (i : Nat) (hi : i < ls.length) :
+    F.take 0 i = .ok ls[i] ∧ takeAt k i S = .ok ls[i] ∧ stackAt k sh ls = .ok S := by
+  have hS : stackAt k sh ls = .ok S := by
+    have h1 : Flax.LiftLoop.opt (Flax.LiftLoop.stackFront k sh ls) = some S := by rw [hout]; rfl
+    rw [Flax.LiftLoop.stackFront_opt] at h1
+    exact Flax.LiftLoop.opt_eq_some.1 h1
+  have hslice : takeAt k i S = .ok ls[i] := by
+    have hS' := hS
+    unfold stackAt at hS'
+    cases hn : normAxis (sh.length + 1) k with
+    | none => simp [hn] at hS'
+    | some n =>
+      simp only [hn] at hS'
+      have hrank : S.rank = sh.length + 1 := by
+        have hle : n ≤ sh.length := by have := Flax.LiftLoop.normAxis_lt hn; omega
+        simp only [Arr.stack] at hS'
+        split at hS'
+        · injection hS' with hS'; subst hS'; simp [Arr.rank, List.length_insertIdx, hle]
+        · cases hS'
+      simp only [takeAt, hrank, hn]
+      exact Flax.LiftLoop.Arr.take_stack sh n ls S hS' hwf i hi
+  exact ⟨by rw [Flax.LiftLoop.take_front_eq S F k hin i]; exact hslice, hslice, hS⟩
+
+/-- the shape side of `moveaxis_inv`, both ways round, for every axis in `[-rank, rank)` (C06) -/
+theorem moveaxis_inv_axes {β : Type} (xs : List β) (k : Int) (hlo : -(xs.length : Int) ≤ k) (hhi : k < xs.length) :
+    (Flax.LiftLoop.axesToFront k xs >>= Flax.LiftLoop.axesFromFront k) = .ok xs ∧
+    (Flax.LiftLoop.axesFromFront k xs >>= Flax.LiftLoop.axesToFront k) = .ok xs := by
+  obtain ⟨n, hn⟩ := Flax.LiftLoop.normAxis_isSome hlo hhi
+  obtain ⟨hlt, hto⟩ := Flax.LiftLoop.axesToFront_eq xs k n hn
+  constructor
+  · rw [hto]
+    have hlen : (xs.eraseIdx n).length + 1 = xs.length := by
+      rw [List.length_eraseIdx]; simp [hlt]; omega
+    have := Flax.LiftLoop.axesFromFront_eq xs[n] (xs.eraseIdx n) k n (by rw [hlen]; exact hn)
+    simp only [bind, Except.bind, this]
+    congr 1
+    exact Flax.LiftLoop.insertIdx_eraseIdx_self xs n hlt
+  · cases xs with
+    | nil => simp at hlt
+    | cons y rest =>
+      have hf := Flax.LiftLoop.axesFromFront_eq y rest k n (by simpa using hn)
+      simp only [bind, Except.bind, hf]
+      have hlen : (rest.insertIdx n y).length = (y :: rest).length := by
+        rw [List.length_insertIdx]; simp at hlt ⊢; omega
+      obtain ⟨hlt', hto'⟩ := Flax.LiftLoop.axesToFront_eq (rest.insertIdx n y) k n (by rw [hlen]; exact hn)
+      rw [hto']
+      congr 1
+      rw [List.getElem_insertIdx_self, List.eraseIdx_insertIdx_self]
+
+/-! non-vacuity on rank 3: axis 2 and axis −1 (where the two directions of `moveaxis` differ), three iterations of
+shape `[2, 1]` stacked to `[2, 1, 3]`; and the swapped direction (the seeded change) gives another array -/
+def exRows : List (Arr Int) :=
+  [Arr.ofFn [2, 1] (fun i => (i.getD 0 0 : Int)), Arr.ofFn [2, 1] (fun i => 10 + (i.getD 0 0 : Int)),
+   Arr.ofFn [2, 1] (fun i => 20 + (i.getD 0 0 : Int))]
+
+example : (Flax.LiftLoop.stackFront 2 [2, 1] exRows).toOption.map (·.shape) = some [2, 1, 3] := by decide
+example : (Flax.LiftLoop.stackFront 2 [2, 1] exRows).toOption = (stackAt (-1) [2, 1] exRows).toOption := by decide
+example : ((Flax.LiftLoop.stackFront 2 [2, 1] exRows >>= Arr.toFront 2) >>= (fun F => F.take 0 1)).toOption
+    = exRows[1]? := by decide
+example : ((Flax.LiftLoop.stackFront (-1) [2, 1] exRows >>= Arr.toFront (-1)) >>= (fun F => F.take 0 2)).toOption
+    = exRows[2]? := by decide
+/-- `moveaxis(x, 2, 0)` on the way out instead of `moveaxis(x, 0, 2)`: a different shape -/
+example : ((Arr.stack [2, 1] 0 exRows) >>= Arr.toFront 2).toOption.map (·.shape) = some [1, 3, 2] := by decide
+
 /-- **What every iteration sees** (`_scan_split_in` → `lax.scan` slice → `_scan_merge_in`, three routes, three deques
 popped in argument order).  For every store, arguments with any aliasing, prefixes (ints, `None`, `Carry`, `StateAxes`),
 iteration index `i`, values `cur` left by the iteration processed before and array carry `carr`: the traced function is
